@@ -120,6 +120,45 @@ func runC10Child(res *lib.Result, tier string, seed int64, args []string) error 
 	root := lib.NewRng(uint64(seed))
 	qs := c10Queries()
 	t0 := c10Files["main.lua"]
+	// bulk file events: many files rewritten and announced in ONE didChangeWatchedFiles (and created /
+	// deleted in one): the worker pools of the re-analysis run while the coordinator stores results
+	for bulk := 0; bulk < 3; bulk++ {
+		bdir := lib.ScratchDir(fmt.Sprintf("c10bulk%d", bulk))
+		files := map[string]string{}
+		for i := 0; i < 40; i++ {
+			files[fmt.Sprintf("m%d.lua", i)] = fmt.Sprintf("local m = require(\"m%d\")\nlocal t = {}\nfunction t.f%d() return %d end\n%sreturn t\n", (i+1)%40, i, i, strings.Repeat("-- pad\n", i%7))
+		}
+		lib.WriteWorkspace(bdir, files)
+		sess, err := lib.StartSession(bdir, lib.AllChecksOptions())
+		if err != nil {
+			os.RemoveAll(bdir)
+			return err
+		}
+		sess.Timeout = 60 * time.Second
+		ev := map[string]int{}
+		for i := 0; i < 40; i++ {
+			n := fmt.Sprintf("m%d.lua", i)
+			files[n] = files[n] + fmt.Sprintf("-- v%d\n", bulk)
+			ev[n] = 2
+		}
+		lib.WriteWorkspace(bdir, files)
+		lib.Breadcrumb("C10 bulk didChangeWatchedFiles: 40 files changed in one notification")
+		sess.Watched(ev)
+		sess.Sync()
+		ev = map[string]int{}
+		for i := 40; i < 60; i++ {
+			n := fmt.Sprintf("m%d.lua", i)
+			files[n] = fmt.Sprintf("local t = {}\nfunction t.g%d() end\nreturn t\n", i)
+			ev[n] = 1
+		}
+		lib.WriteWorkspace(bdir, files)
+		sess.Watched(ev)
+		sess.Sync()
+		res.Count(fmt.Sprintf("bulk-%d", bulk), true)
+		res.Dist("bulk-file-events")
+		sess.Close()
+		os.RemoveAll(bdir)
+	}
 	for round := 0; round < rounds; round++ {
 		r := root.Fork(uint64(round))
 		sess, err := lib.StartSession(dir, lib.AllChecksOptions())
